@@ -109,6 +109,106 @@ def roundtrip(R, kind, t):
     return True, "", f[1]
 
 
+def kids_of(g, t):
+    r = g.root(t)
+    v = next(iter(t.values()))
+    if r == "case":
+        return [("case", 0, v[0]["when"]), ("case", 1, v[0]["then"]), ("case", 2, v[1])]
+    if r in ("cast", "collate"):
+        return [(r, 0, v[0])]
+    if isinstance(v, list):
+        return [(r, i, k) for i, k in enumerate(v)]
+    return [(r, 0, v)]
+
+
+def replace_at(g, t, path, new):
+    if not path:
+        return new
+    t = json.loads(json.dumps(t))
+    r = g.root(t)
+    k = next(iter(t))
+    v = t[k]
+    i = path[0]
+    if r == "case":
+        if i == 0:
+            v[0]["when"] = replace_at(g, v[0]["when"], path[1:], new)
+        elif i == 1:
+            v[0]["then"] = replace_at(g, v[0]["then"], path[1:], new)
+        else:
+            v[1] = replace_at(g, v[1], path[1:], new)
+    elif r in ("cast", "collate"):
+        v[0] = replace_at(g, v[0], path[1:], new)
+    elif isinstance(v, list):
+        v[i] = replace_at(g, v[i], path[1:], new)
+    else:
+        t[k] = replace_at(g, v, path[1:], new)
+    return t
+
+
+def op_paths(g, t, pre=()):
+    out = []
+    if g.root(t) is None:
+        return out
+    for r, i, k in kids_of(g, t):
+        if g.root(k) is not None:
+            out.append(pre + (i,))
+            out += op_paths(g, k, pre + (i,))
+    return out
+
+
+def shrink(R, g, t, kind):
+    """smallest failing tree: hoist failing subtrees, replace operator subtrees by an atom while it still fails"""
+    def fails(x):
+        return not roundtrip(R, kind, x)[0]
+
+    changed = True
+    while changed:
+        changed = False
+        for r, i, k in kids_of(g, t):
+            if g.root(k) is not None and fails(k):
+                t = k
+                changed = True
+                break
+        if changed:
+            continue
+        for p in sorted(op_paths(g, t), key=len):
+            t2 = replace_at(g, t, list(p), "z9")
+            if fails(t2):
+                t = t2
+                changed = True
+                break
+    return t
+
+
+LOOSE_INNER = INNER_IGNORES_PREC | {"in", "nin"}
+
+
+def deep_key(g, m):
+    """classify a minimal deep failure by its culprit: the deepest operand whose renderer never parenthesises
+    itself (or belongs to the IN family), together with the slot it sits in.  Depth-2 measurement cannot see these:
+    `a BETWEEN NOT b AND c` happens to parse back alone, but not as an operand of a third operator."""
+    best = None
+
+    def walk(t, depth):
+        nonlocal best
+        if g.root(t) is None:
+            return
+        for r, i, k in kids_of(g, t):
+            kr = g.root(k)
+            if kr is not None:
+                if kr in LOOSE_INNER and (best is None or depth >= best[0]):
+                    best = (depth, r, i, kr)
+                walk(k, depth + 1)
+
+    walk(m, 0)
+    if best is None:
+        return None
+    _, parent, slot, inner = best
+    if inner in INNER_IGNORES_PREC:
+        return "fmt-rule:inner-ignores-prec:%s" % inner, "deep:%s,%d" % (parent, slot)
+    return "fmt-rule:inner-in-family:%s" % inner, "deep:%s,%d" % (parent, slot)
+
+
 def run(ctx, budget=None):
     rep = ctx.rep
     R = C.real()
@@ -219,8 +319,19 @@ def run(ctx, budget=None):
         rep.count("origin", "random")
         rep.count("embedding", kind)
         if not okk:
-            key = raise_key(obs) or "fmt-deep:" + ",".join(sorted({"%s>%s" % (o, i2) for o, s, i2 in es}))[:120]
-            rep.finding(key, "format(%s) in %s: %s" % (json.dumps(t)[:300], kind, obs), {"tree": t, "observed": obs, "embedding": kind})
+            rk = raise_key(obs)
+            if rk:
+                rep.finding(rk, "format(%s) in %s: %s" % (json.dumps(t)[:300], kind, obs), {"tree": t, "observed": obs, "embedding": kind})
+                continue
+            m = shrink(R, g, t, kind)
+            _, obs_m, _ = roundtrip(R, kind, m)
+            dk = deep_key(g, m)
+            what = "format(%s) in %s: %s" % (json.dumps(m)[:300], kind, obs_m)
+            if dk:
+                rep.finding(dk[0], what, {"tree": m, "observed": obs_m, "embedding": kind}, sub=dk[1])
+            else:
+                key = "fmt-deep:" + ",".join(sorted({"%s>%s" % (o, i2) for o, s_, i2 in g.edges(m)}))[:120]
+                rep.finding(key, what, {"tree": m, "observed": obs_m, "embedding": kind})
 
 
 def search(ctx):
